@@ -3,8 +3,10 @@
    the outcome, per document the winning revision and, for every leaf revision, the attachments a reader gets
    (name, digest, readable) -- and the set of attachment data documents in the bucket.
    Second case kind: the replication allow-list (addAllowedAttachments / removeAllowedAttachments /
-   handleGetAttachment) against C14/AllowList.v. *)
-From SG Require Export Base.Prelude C14.Attachments C14.AllowList.
+   handleGetAttachment) against C14/AllowList.v.
+   Third case kind: attachment compaction -- a corpus of legacy documents and data documents, and a list of runs
+   of the real AttachmentCompactionManager with injected read / stamp faults, against C14/Compaction.v. *)
+From SG Require Export Base.Prelude C14.Attachments C14.AllowList C14.Compaction.
 Open Scope N_scope.
 
 (* the tree is NOT repaired: db/crud.go behaves as [fixed = false] (see C14_Refuted.v) *)
@@ -17,9 +19,16 @@ Record obsv := OB { o_out : outcome; o_docs : list docobs; o_store : list key }.
 Definition WP (k : wkind) (doc : N) (rv : revid) (parent : option revid) (deleted : bool) (atts : list (N * aspec)) : wop :=
   W k doc rv parent deleted atts.
 
+(* compaction: a run as the harness asked for it, and what the manager and the bucket showed afterwards *)
+Record cp_crun := CRun { cr_reset : bool; cr_dry : bool; cr_read : list N; cr_stamp : list N }.
+Record cp_cobs := CObs {
+  co_completed : bool; co_marked : N; co_purged : N;
+  co_remain : list (N * list N) }.       (* remaining _sync:att: documents, each with the runs whose id it carries *)
+
 Inductive case :=
 | CHist (ac sw : bool) (evs : list event) (obs : list obsv)
-| CAllow (evs : list aev) (obs : list (list N)).         (* after each event: the keys that are served *)
+| CAllow (evs : list aev) (obs : list (list N))          (* after each event: the keys that are served *)
+| CCompact (docs : list cp_doc) (bodies : list (N * cp_amap)) (atts : list N) (runs : list (cp_crun * cp_cobs)).
 
 Definition outcome_eqb (a b : outcome) : bool :=
   match a, b with
@@ -84,10 +93,43 @@ Fixpoint check_allow (a : alist) (op : list (N * list N)) (evs : list aev) (obs 
   | _, _ => false
   end.
 
+(* compaction.  The code as it is: [cp_code_fixed = false] (a resumed mark phase starts behind the failed document,
+   see C14_Refuted.v).  The fresh id of run number n is n (the harness numbers the manager's ids the same way).
+   The scheduler's choices are resolved from the observation: the digests of the failing document stamped before
+   the failure are those the bucket shows with the run's id; the start of a resumed feed is searched. *)
+Definition cp_code_fixed : bool := false.
+(* since commit 360f98e the mark map is keyed by the data document id (before: by attachment name, C14_Refuted.v) *)
+Definition cp_mark_by_docid : bool := true.
+
+Definition cp_entry_eqb (a b : N * list N) : bool := (fst a =? fst b) && same_set N.eqb (snd a) (snd b).
+
+Definition cp_obs_ok (s' : cp_store) (res : cp_result) (fresh : bool) (o : cp_cobs) : bool :=
+  let completed := match cp_rstatus res with CpCompleted => true | CpFailed => false end in
+  Bool.eqb completed (co_completed o)
+  (* the counters of a resumed run continue those of the status document; compared for new runs only *)
+  && (if fresh then cp_rpurged res =? co_purged o else true)
+  && (if fresh && completed then cp_rmarked res =? co_marked o else true)
+  && same_set cp_entry_eqb (cp_atts s') (co_remain o).
+
+Fixpoint cp_check_runs (n : N) (s : cp_store) (runs : list (cp_crun * cp_cobs)) : bool :=
+  match runs with
+  | [] => true
+  | (cr, o) :: rest =>
+      let fresh := cr_reset cr || match cp_pending s with None => true | Some _ => false end in
+      let c := match cr_reset cr, cp_pending s with false, Some p => cp_pid p | _, _ => n end in
+      let partial := map fst (filter (fun e => cp_mem c (snd e)) (co_remain o)) in
+      existsb (fun k =>
+                 let r := CpRun n (cr_reset cr) (cr_dry cr) (CpF (cr_read cr) (cr_stamp cr)) k partial in
+                 let '(s', res) := cp_run cp_mark_by_docid cp_code_fixed s r in
+                 cp_obs_ok s' res fresh o && cp_check_runs (N.succ n) s' rest)
+              (if fresh then [0%nat] else seq 0 (S (length (cp_docs s))))
+  end.
+
 Definition check (c : case) : bool :=
   match c with
   | CHist ac sw evs obs => check_hist ac sw init evs obs
   | CAllow evs obs => check_allow [] [] evs obs
+  | CCompact docs bodies atts runs => cp_check_runs 1 (CpSt docs bodies (map (fun g => (g, [])) atts) None) runs
   end.
 
 Definition mismatches (cs : list case) : list N := failing check cs.
